@@ -590,3 +590,32 @@ func isErrCtor(s string) bool { return regexpMatch(anyErr[1:], s) }
 func wraps(x string) string {
 	return `~fmt\.Errorf\(".*%w.*", \[(.*, )?` + regexpQuote(x) + `\]\)`
 }
+
+// FuncValue resolves a function-typed value to the function it denotes: a literal, a function, or
+// the method behind a method value (x.m).
+func (e *Eng) FuncValue(v ssa.Value) *ssa.Function {
+	for i := 0; i < 4; i++ {
+		switch x := v.(type) {
+		case *ssa.MakeClosure:
+			v = x.Fn
+			continue
+		case *ssa.ChangeType:
+			v = x.X
+			continue
+		case *ssa.MakeInterface:
+			v = x.X
+			continue
+		case *ssa.Function:
+			if x.Synthetic != "" && x.Object() != nil {
+				if tf, ok := x.Object().(*types.Func); ok {
+					if m := e.Prog.FuncValue(tf); m != nil && m != x {
+						return m
+					}
+				}
+			}
+			return x
+		}
+		break
+	}
+	return nil
+}
